@@ -86,6 +86,29 @@ def apply_flodym(op, x, y):
     raise ValueError(op)
 
 
+def num_form(form, x, mx, n):
+    """-> (flodym result, model expectation) of an operation between an array and a plain number"""
+    mn = full_like(mx, n)
+    if form == "x+n":
+        return x + n, expected("+", mx, mn)
+    if form == "n+x":
+        return n + x, expected("+", mn, mx)
+    if form == "x-n":
+        return x - n, expected("-", mx, mn)
+    if form == "n-x":
+        return n - x, expected("-", mn, mx)
+    if form == "x*n":
+        return x * n, expected("*", mx, mn)
+    if form == "n*x":
+        return n * x, expected("*", mn, mx)
+    if form == "x/n":
+        return x / n, expected("/", mx, mn)
+    if form == "n/x":
+        exp = expected("/", mn, mx)  # may raise ZeroDivisionError before flodym is asked
+        return n / x, exp
+    return x**n, expected("**", mx, mn)
+
+
 def run_case(desc):
     U = desc["universe"]
     form = desc["form"]
@@ -165,32 +188,13 @@ def run_case(desc):
         bucket = f"binary-{ {'+':'add','-':'sub','*':'mul','/':'div','**':'pow','min':'min','max':'max'}[op] }"
     elif form in NUM_FORMS:
         n = desc["num"]
-        mn = full_like(mx, n)
         classes.append(f"op:{form}")
-        if form == "x+n":
-            res, exp = x + n, expected("+", mx, mn)
-        elif form == "n+x":
-            res, exp = n + x, expected("+", mn, mx)
-        elif form == "x-n":
-            res, exp = x - n, expected("-", mx, mn)
-        elif form == "n-x":
-            res, exp = n - x, expected("-", mn, mx)
-        elif form == "x*n":
-            res, exp = x * n, expected("*", mx, mn)
-        elif form == "n*x":
-            res, exp = n * x, expected("*", mn, mx)
-        elif form == "x/n":
-            res, exp = x / n, expected("/", mx, mn)
-        elif form == "n/x":
-            try:
-                exp = expected("/", mn, mx)
-            except ZeroDivisionError:
-                from vlib.runner import Discard
+        try:
+            res, exp = num_form(form, x, mx, n)
+        except ZeroDivisionError:
+            from vlib.runner import Discard
 
-                raise Discard("zero denominator")
-            res = n / x
-        else:
-            res, exp = x**n, expected("**", mx, mn)
+            raise Discard("zero denominator")
         nontrivial = form[0] == "n" or len(xd["letters"]) != 1
         bucket = f"number-{form}"
     else:
@@ -217,26 +221,37 @@ def run_case(desc):
     eq = model.eq_sym if mode == "sym" else eq_mixed(scale)
     d = model.diff(exp, got, eq)
     require(d is None, bucket, f"{d}; x{xd['letters']} y{desc.get('y', {}).get('letters') if isinstance(desc.get('y'), dict) else desc.get('num')}")
-    if desc.get("again") and mode in ("float", "int") and form in ("binary", "neg", "abs", "abs_method", "sign_method"):
-        # the same operand object is updated in place and the operation repeated: computed from the current values
-        x.values[...] = x.values * 2 + 1
-        mx2 = mx.map(lambda v: v * 2 + 1)
+    if desc.get("again") and mode in ("float", "int") and form != "sign":
+        # the same operand object (left, right or both) is updated in place and the operation repeated: the second
+        # result is computed from the values the operands hold now
+        which = desc["again"] if form == "binary" else "x"
+        mx2, my2 = mx, (my if form == "binary" else None)
+        if which in ("x", "both", True):
+            x.values[...] = x.values * 2 + 1
+            mx2 = mx.map(lambda v: v * 2 + 1)
+        if which in ("y", "both"):
+            y.values[...] = y.values * 2 + 1
+            my2 = my.map(lambda v: v * 2 + 1)
+            snap_y = build.snapshot(y)
         try:
             if form == "binary":
-                res2, exp2 = apply_flodym(desc["op"], x, y), expected(desc["op"], mx2, my)
+                exp2 = expected(desc["op"], mx2, my2)
+                res2 = apply_flodym(desc["op"], x, y)
+            elif form in NUM_FORMS:
+                res2, exp2 = num_form(form, x, mx2, desc["num"])
             elif form == "neg":
                 res2, exp2 = -x, mx2.map(lambda v: -v)
             elif form == "sign_method":
                 res2, exp2 = x.sign(), mx2.map(_sign)
             else:
                 res2, exp2 = x.abs(), mx2.map(abs)
-        except ZeroDivisionError:
+        except (ZeroDivisionError, KeyError):
             res2 = None
         if res2 is not None:
-            sc2 = 2 * scale + len(mx.data) + 1
+            sc2 = 2 * scale + len(mx.data) + (len(my.data) if form == "binary" else 0) + 1
             d = model.diff(exp2, MArr.from_flodym(res2), eq_mixed(sc2))
-            require(d is None, "stale-result-after-inplace-update", f"{bucket} repeated after the operand was updated in place: {d}")
-            classes.append("repeated-after-inplace-update")
+            require(d is None, "stale-result-after-inplace-update", f"{bucket} repeated after operand {which} was updated in place: {d}")
+            classes.append(f"repeated-after-inplace-update-of-{which}")
         snap_x = build.snapshot(x)
     if desc.get("followup") and mode in ("float", "int"):
         # a later operation on yet another array: the earlier result (and the bystander z) keep their values
@@ -320,8 +335,8 @@ def arith_cases(draw, mode, max_dims=3, max_len=2, forms=("binary", "binary", "b
     if mode in ("float", "int"):
         desc["prelude"] = draw(st.sampled_from([None, None, None, "abs", "sign", "apply"]))
         desc["followup"] = draw(st.sampled_from([None, None, "abs", "sign", "neg", "apply"]))
-        if desc.get("op") != "**":
-            desc["again"] = draw(st.booleans())
+        if desc.get("op") != "**" and desc.get("form") != "x**n":
+            desc["again"] = draw(st.sampled_from([None, "x", "y", "both"]))
     return desc
 
 
